@@ -196,6 +196,8 @@ impl DTree {
         }
         // `subtrees` are independent, so compose them
         let mut res = DTree::balanced(&subtrees);
+        // the nodes created by this last composition have no variable sets yet
+        res.init_vars();
         res.gen_cutset(&VarSet::new());
         res
     }
